@@ -2,9 +2,12 @@
     Property theorems only: each is closed by [exact] of a lemma from Proofs/C03.v and followed by
     [Print Assumptions].  Model functions are the line-by-line transcriptions of the Rust in
     Model/Date.v, Model/Time.v, Model/DateTime.v, Model/C03.v (trapping arithmetic: [Val]/[Panic]). *)
-From Coq Require Import ZArith List Bool.
+From Coq Require Import String ZArith List Bool.
 From V Require Import Base.Int Base.IO Spec.Gregorian Model.TimeDelta Model.DateTime Model.C03 Proofs.C06 Proofs.C03.
 From V Require Model.Date Model.Time Proofs.C03Headroom Proofs.C03Zone Proofs.C03Nth.
+From V Require Import Proofs.C03Ops Proofs.C03Adapt.
+From V Require Judge.C03 Proofs.C03Holds Proofs.C03HoldsAr Proofs.C03HoldsNth Proofs.C03HoldsZdays Proofs.C03Zord.
+Import ListNotations.
 Open Scope Z_scope.
 
 (** Vocabulary (Proofs/C03.v, Proofs/C06.v, Spec/Gregorian.v):
@@ -365,3 +368,408 @@ Theorem C03_nth_past_the_end : forall step j k fuel v vj v',
   it_nth step fuel (Z.of_nat k) v = Val (None, v').
 Proof. exact Proofs.C03Nth.it_nth_past_end. Qed.
 Print Assumptions C03_nth_past_the_end.
+
+(* ================= the remaining operator surface (dispatcher run2, ops ar.opdasg ... ar.opzoff) ================= *)
+
+(* ---- ar.opdasg: NaiveDate += / -= TimeDelta is the binary operator, hence the checked form's value
+        and PANIC exactly where it refuses; on values: the date moves by the whole days of the
+        duration (truncated toward zero), PANIC exactly when the target leaves the date range ---- *)
+Theorem C03_ops_assign_date_agree : forall d x,
+  op_dadd_assign d x = op_dadd_td d x /\ op_dsub_assign d x = op_dsub_td d x /\
+  agrees (op_dadd_assign d x) (Date.checked_add_signed d x) /\
+  agrees (op_dsub_assign d x) (Date.checked_sub_signed d x).
+Proof. exact ops_assign_date_agree. Qed.
+Print Assumptions C03_ops_assign_date_agree.
+Theorem C03_ops_assign_date_exact : forall d x, vdate d -> valid x ->
+  (if dn_in_range (dn d + Z.quot (ns x) 86400000000000)
+   then exists d', op_dadd_assign d x = Val d' /\ vdate d' /\ dn d' = dn d + Z.quot (ns x) 86400000000000
+   else op_dadd_assign d x = Panic) /\
+  (if dn_in_range (dn d - Z.quot (ns x) 86400000000000)
+   then exists d', op_dsub_assign d x = Val d' /\ vdate d' /\ dn d' = dn d - Z.quot (ns x) 86400000000000
+   else op_dsub_assign d x = Panic).
+Proof. exact ops_assign_date_exact. Qed.
+Print Assumptions C03_ops_assign_date_exact.
+
+(* ---- ar.opnasg: NaiveDateTime += / -= TimeDelta ---- *)
+Theorem C03_ops_assign_ndt_agree : forall a d,
+  op_nadd_assign a d = op_nadd_td a d /\ op_nsub_assign a d = op_nsub_td a d /\
+  agrees (op_nadd_assign a d) (ndt_checked_add_signed a d) /\
+  agrees (op_nsub_assign a d) (ndt_checked_sub_signed a d).
+Proof. exact ops_assign_ndt_agree. Qed.
+Print Assumptions C03_ops_assign_ndt_agree.
+Theorem C03_ops_assign_ndt_exact : forall a d, nvalid a -> valid d ->
+  (if in_ns_range (inst a + ns d)
+   then exists b, op_nadd_assign a d = Val b /\ nvalid b /\ inst b = inst a + ns d
+   else op_nadd_assign a d = Panic) /\
+  (if in_ns_range (inst a - ns d)
+   then exists b, op_nsub_assign a d = Val b /\ nvalid b /\ inst b = inst a - ns d
+   else op_nsub_assign a d = Panic).
+Proof. exact ops_assign_ndt_exact. Qed.
+Print Assumptions C03_ops_assign_ndt_exact.
+
+(* ---- ar.stdasg / ar.zstdasg: += / -= of a core::time::Duration (s seconds, n nanoseconds):
+        conversion failure panics, else the TimeDelta operator; on values the instant moves by exactly
+        s*10^9 + n ns, PANIC exactly when the Duration does not fit a TimeDelta ([in_td_range]) or the
+        target instant is not representable; a zone-aware value keeps its offset.
+        The same two value-level statements hold for ar.addstd / ar.zaddstd (op_nadd_std_assign is
+        op_nadd_std; op_zadd_std_assign a s n = op_zadd_std a s n by C03_ops_assign_agree). ---- *)
+Theorem C03_ops_std_assign_agree : forall a s n,
+  match from_std s n with
+  | Some d => op_nadd_std_assign a s n = op_nadd_td a d /\ op_nsub_std_assign a s n = op_nsub_td a d
+  | None => op_nadd_std_assign a s n = Panic /\ op_nsub_std_assign a s n = Panic
+  end.
+Proof. exact ops_std_assign_agree. Qed.
+Print Assumptions C03_ops_std_assign_agree.
+Theorem C03_ops_zstd_assign_agree : forall a s n,
+  match from_std s n with
+  | Some d => op_zadd_std_assign a s n = op_zadd_td a d /\ op_zsub_std_assign a s n = op_zsub_td a d
+  | None => op_zadd_std_assign a s n = Panic /\ op_zsub_std_assign a s n = Panic
+  end.
+Proof. exact ops_zstd_assign_agree. Qed.
+Print Assumptions C03_ops_zstd_assign_agree.
+Theorem C03_ops_std_assign_exact : forall a s n, nvalid a -> in_u64 s = true -> 0 <= n < G ->
+  (if in_td_range (s * G + n) && in_ns_range (inst a + (s * G + n))
+   then exists b, op_nadd_std_assign a s n = Val b /\ nvalid b /\ inst b = inst a + (s * G + n)
+   else op_nadd_std_assign a s n = Panic) /\
+  (if in_td_range (s * G + n) && in_ns_range (inst a - (s * G + n))
+   then exists b, op_nsub_std_assign a s n = Val b /\ nvalid b /\ inst b = inst a - (s * G + n)
+   else op_nsub_std_assign a s n = Panic).
+Proof. exact ops_std_assign_exact. Qed.
+Print Assumptions C03_ops_std_assign_exact.
+Theorem C03_ops_zstd_assign_exact : forall u off s n, nvalid u -> in_u64 s = true -> 0 <= n < G ->
+  (if in_td_range (s * G + n) && in_ns_range (inst u + (s * G + n))
+   then exists b, op_zadd_std_assign (mk_dtz u off) s n = Val (mk_dtz b off) /\ nvalid b /\ inst b = inst u + (s * G + n)
+   else op_zadd_std_assign (mk_dtz u off) s n = Panic) /\
+  (if in_td_range (s * G + n) && in_ns_range (inst u - (s * G + n))
+   then exists b, op_zsub_std_assign (mk_dtz u off) s n = Val (mk_dtz b off) /\ nvalid b /\ inst b = inst u - (s * G + n)
+   else op_zsub_std_assign (mk_dtz u off) s n = Panic).
+Proof. exact ops_zstd_assign_exact. Qed.
+Print Assumptions C03_ops_zstd_assign_exact.
+(* the zone-aware binary operators on values (ar.opzadd / ar.opzsub / ar.opzaddasg / ar.opzsubasg) *)
+Theorem C03_op_zadd_exact : forall u off d, nvalid u -> valid d ->
+  (if in_ns_range (inst u + ns d)
+   then exists b, op_zadd_td (mk_dtz u off) d = Val (mk_dtz b off) /\ nvalid b /\ inst b = inst u + ns d
+   else op_zadd_td (mk_dtz u off) d = Panic) /\
+  (if in_ns_range (inst u - ns d)
+   then exists b, op_zsub_td (mk_dtz u off) d = Val (mk_dtz b off) /\ nvalid b /\ inst b = inst u - ns d
+   else op_zsub_td (mk_dtz u off) d = Panic).
+Proof. exact op_zadd_exact. Qed.
+Print Assumptions C03_op_zadd_exact.
+
+(* ar.zaddstd: DateTime<Tz> + / - core::time::Duration reduces to the same TimeDelta operators *)
+Theorem C03_ops_zstd_agree : forall a s n,
+  match from_std s n with
+  | Some d => op_zadd_std a s n = op_zadd_td a d /\ op_zsub_std a s n = op_zsub_td a d
+  | None => op_zadd_std a s n = Panic /\ op_zsub_std a s n = Panic
+  end.
+Proof. exact ops_zstd_agree. Qed.
+Print Assumptions C03_ops_zstd_agree.
+(* ar.opndiff / ar.opzdiff / ar.opddiff: the difference operators are the method signed_duration_since *)
+Theorem C03_ops_diff_agree : (forall a b, op_nsub_ndt a b = ndt_signed_duration_since a b) /\
+  (forall a b, op_zsub_z a b = dz_signed_duration_since a b) /\ (forall a b, op_dsub_date a b = Date.signed_duration_since a b).
+Proof. exact ops_diff_agree. Qed.
+Print Assumptions C03_ops_diff_agree.
+
+(* ---- ar.opzdiffref: DateTime - &DateTime is signed_duration_since: the exact distance of the instants ---- *)
+Theorem C03_op_zsub_zref_agree : forall a b,
+  op_zsub_zref a b = dz_signed_duration_since a b /\ op_zsub_zref a b = op_zsub_z a b.
+Proof. exact op_zsub_zref_agree. Qed.
+Print Assumptions C03_op_zsub_zref_agree.
+Theorem C03_op_zsub_zref_exact : forall u1 o1 u2 o2, nvalid u1 -> nvalid u2 ->
+  exists d, op_zsub_zref (mk_dtz u1 o1) (mk_dtz u2 o2) = Val d /\ valid d /\ ns d = inst u1 - inst u2.
+Proof. exact op_zsub_zref_exact. Qed.
+Print Assumptions C03_op_zsub_zref_exact.
+
+(* ---- ar.noff: NaiveDateTime::checked_add_offset / checked_sub_offset for every FixedOffset
+        (-86400 < off < 86400 s): the value off seconds later / earlier, refused exactly when that
+        instant is not representable ---- *)
+Theorem C03_ndt_offset_exact : forall a off, nvalid a -> -86400 < off < 86400 ->
+  (exists r, ndt_checked_add_offset a off = Val r /\
+     match r with Some b => nvalid b /\ inst b = inst a + off * G
+                | None => ~ (NS_MIN <= inst a + off * G <= NS_MAX) end) /\
+  (exists r, ndt_checked_sub_offset a off = Val r /\
+     match r with Some b => nvalid b /\ inst b = inst a - off * G
+                | None => ~ (NS_MIN <= inst a - off * G <= NS_MAX) end).
+Proof. exact ndt_offset_exact. Qed.
+Print Assumptions C03_ndt_offset_exact.
+(* ---- ar.opnoff: NaiveDateTime + / - FixedOffset ---- *)
+Theorem C03_ops_off_agree : forall a off,
+  agrees (op_nadd_off a off) (ndt_checked_add_offset a off) /\
+  agrees (op_nsub_off a off) (ndt_checked_sub_offset a off).
+Proof. exact ops_off_agree. Qed.
+Print Assumptions C03_ops_off_agree.
+Theorem C03_ops_off_exact : forall a off, nvalid a -> -86400 < off < 86400 ->
+  (if in_ns_range (inst a + off * G)
+   then exists b, op_nadd_off a off = Val b /\ nvalid b /\ inst b = inst a + off * G
+   else op_nadd_off a off = Panic) /\
+  (if in_ns_range (inst a - off * G)
+   then exists b, op_nsub_off a off = Val b /\ nvalid b /\ inst b = inst a - off * G
+   else op_nsub_off a off = Panic).
+Proof. exact ops_off_exact. Qed.
+Print Assumptions C03_ops_off_exact.
+(* ---- ar.opzoff: DateTime<Tz> + / - FixedOffset: the operator on the stored UTC value; the instant
+        moves, the value's own offset is kept ---- *)
+Theorem C03_ops_zoff_agree : forall a off,
+  op_zadd_off a off = (let* u := op_nadd_off (dz_utc a) off in Val (mk_dtz u (dz_off a))) /\
+  op_zsub_off a off = (let* u := op_nsub_off (dz_utc a) off in Val (mk_dtz u (dz_off a))).
+Proof. exact ops_zoff_agree. Qed.
+Print Assumptions C03_ops_zoff_agree.
+Theorem C03_ops_zoff_exact : forall u zoff off, nvalid u -> -86400 < off < 86400 ->
+  (if in_ns_range (inst u + off * G)
+   then exists b, op_zadd_off (mk_dtz u zoff) off = Val (mk_dtz b zoff) /\ nvalid b /\ inst b = inst u + off * G
+   else op_zadd_off (mk_dtz u zoff) off = Panic) /\
+  (if in_ns_range (inst u - off * G)
+   then exists b, op_zsub_off (mk_dtz u zoff) off = Val (mk_dtz b zoff) /\ nvalid b /\ inst b = inst u - off * G
+   else op_zsub_off (mk_dtz u zoff) off = Panic).
+Proof. exact ops_zoff_exact. Qed.
+Print Assumptions C03_ops_zoff_exact.
+(* hypotheses inhabited; both outcomes occur at the range ends *)
+Example C03_ops_off_inhabited :
+  nvalid NDT_MAX /\ nvalid NDT_MIN /\
+  ndt_checked_add_offset NDT_MAX 1 = Val None /\ ndt_checked_sub_offset NDT_MAX 86399 <> Val None /\
+  ndt_checked_sub_offset NDT_MIN 1 = Val None /\ ndt_checked_add_offset NDT_MIN 86399 <> Val None /\
+  op_nadd_off NDT_MAX 1 = Panic /\ op_zsub_off (mk_dtz NDT_MIN 3600) 1 = Panic /\
+  op_zadd_off (mk_dtz NDT_MIN 3600) 86399 = Val (mk_dtz (mk_ndt Date.D_MIN (Time.mk_time 86399 0)) 3600).
+Proof. exact ops_off_examples. Qed.
+Print Assumptions C03_ops_off_inhabited.
+
+(* ================= provided iterator adaptors (ops it.dcount ... it.wrev, it.dnth / it.wnth) =================
+   Vocabulary (Proofs/C03Adapt.v):
+   [date_iter step stride fwd]  step is one of the four step functions: days_next (1, forward),
+        days_next_back (1, backward), weeks_next (7, forward), weeks_next_back (7, backward);
+   [seq_avail stride fwd start] = (DN_MAX - dn start) / stride forward, (dn start - DN_MIN) / stride
+        backward: the number of items of the sequence from start;
+   [seq_dn stride fwd start i]  = dn start + stride*i forward, dn start - stride*i backward: the day
+        number of item i.  A valid date is determined by its day number (C03_vdate_inj). *)
+
+(* it.days / it.weeks / it.drev / it.wrev: after k calls the next item is item k of the sequence
+   (nothing from k = av on); the number of items still coming is max 0 (av - k), reported when <= cap *)
+Theorem C03_iter_observe : forall step stride fwd, date_iter step stride fwd ->
+  forall start k cap, vdate start -> 0 <= k -> 0 <= cap ->
+  let a := seq_avail stride fwd start in
+  let left := Z.max 0 (a - k) in
+  exists v, vdate v /\ (k < a -> dn v = seq_dn stride fwd start k) /\
+    it_observe step start k cap =
+      Val (if k <? a then Some v else None, if left <=? cap then Some left else None).
+Proof. exact adapt_observe. Qed.
+Print Assumptions C03_iter_observe.
+(* rev(): it.drev / it.wrev asked for one direction answer what it.days / it.weeks answer for the
+   other (Rev::next = next_back and back), so C03_iter_observe with the other step function applies *)
+Theorem C03_rev_is_swap : forall d k cap,
+  run B"it.drev" [d; k; VInt 0; cap] = run B"it.days" [d; k; VInt 1; cap] /\
+  run B"it.drev" [d; k; VInt 1; cap] = run B"it.days" [d; k; VInt 0; cap] /\
+  run B"it.wrev" [d; k; VInt 0; cap] = run B"it.weeks" [d; k; VInt 1; cap] /\
+  run B"it.wrev" [d; k; VInt 1; cap] = run B"it.weeks" [d; k; VInt 0; cap].
+Proof. exact rev_is_swap. Qed.
+Print Assumptions C03_rev_is_swap.
+
+(* it.dcount / it.wcount: count() is the number of items of the sequence; the model's loop has fuel
+   for 4000 steps (the op is only asked within ten years of the end it runs to), beyond that FUEL *)
+Theorem C03_iter_count : forall step stride fwd, date_iter step stride fwd -> forall start, vdate start ->
+  it_count_all step start =
+    if seq_avail stride fwd start <? 4000 then Val (seq_avail stride fwd start) else OutOfFuel.
+Proof. exact adapt_count. Qed.
+Print Assumptions C03_iter_count.
+(* it.dlast / it.wlast: last() is item av - 1, nothing for the empty sequence *)
+Theorem C03_iter_last : forall step stride fwd, date_iter step stride fwd -> forall start, vdate start ->
+  let a := seq_avail stride fwd start in
+  if a <? 4000 then
+    exists r, it_last step 4000 start None = Val r /\
+      (a = 0 -> r = None) /\
+      (0 < a -> exists x, r = Some x /\ vdate x /\ dn x = seq_dn stride fwd start (a - 1))
+  else it_last step 4000 start None = OutOfFuel.
+Proof. exact adapt_last. Qed.
+Print Assumptions C03_iter_last.
+(* it.dlen / it.wlen: ExactSizeIterator::len after k calls of next = the number of items still coming
+   (the two bounds of size_hint agree, no panic).  Forward only: driven backwards the hint is the
+   forward count, known finding C03-iter-rev-size-hint (C03_hint_backward_refuted). *)
+Theorem C03_iter_len_days : forall start k, vdate start -> 0 <= k ->
+  it_len days_next days_size_hint start k = Val (Z.max 0 ((DN_MAX - dn start) / 1 - k)).
+Proof. exact adapt_len_days. Qed.
+Print Assumptions C03_iter_len_days.
+Theorem C03_iter_len_weeks : forall start k, vdate start -> 0 <= k ->
+  it_len weeks_next weeks_size_hint start k = Val (Z.max 0 ((DN_MAX - dn start) / 7 - k)).
+Proof. exact adapt_len_weeks. Qed.
+Print Assumptions C03_iter_len_weeks.
+(* it.dnth / it.wnth on values: nth(n) (n below the loop fuel) is item n, the cursor then stands on
+   item n + 1 with av - n - 1 items left; from n = av on nothing, and the iterator stays exhausted *)
+Theorem C03_iter_nth : forall step stride fwd, date_iter step stride fwd -> forall (fuel : nat) n start, vdate start ->
+  0 <= n < Z.of_nat fuel ->
+  let a := seq_avail stride fwd start in
+  (n < a -> exists x v', it_nth step fuel n start = Val (Some x, v') /\ vdate x /\ dn x = seq_dn stride fwd start n /\
+              vdate v' /\ dn v' = seq_dn stride fwd start (n + 1) /\ seq_avail stride fwd v' = a - n - 1) /\
+  (a <= n -> exists v', it_nth step fuel n start = Val (None, v') /\ vdate v' /\ seq_avail stride fwd v' = 0).
+Proof. exact adapt_nth. Qed.
+Print Assumptions C03_iter_nth.
+(* it.dstep / it.wstep: step_by(s) (first call next, later calls nth(s - 1); s within the fuel of the
+   inner loop) yields the items 0, s, 2s, ... of the sequence: min(cap, ceil(av / s)) of them *)
+Theorem C03_iter_step_by : forall step stride fwd, date_iter step stride fwd -> forall s (cap : nat) start, vdate start ->
+  1 <= s <= 5001 ->
+  exists l, it_step_by step s true cap start = Val l /\
+    Z.of_nat (length l) = Z.min (Z.of_nat cap) ((seq_avail stride fwd start + s - 1) / s) /\
+    forall i x, nth_error l i = Some x -> vdate x /\ dn x = seq_dn stride fwd start (s * Z.of_nat i).
+Proof. exact adapt_step_by. Qed.
+Print Assumptions C03_iter_step_by.
+Example C03_iter_adaptors_inhabited :
+  vdate Date.D_MAX /\ vdate Date.D_MIN /\
+  seq_avail 1 true Date.D_MAX = 0 /\ seq_avail 7 false Date.D_MIN = 0 /\
+  it_count_all days_next Date.D_MAX = Val 0 /\ it_last days_next 4000 Date.D_MAX None = Val None /\
+  (seq_avail 1 true Date.D_MIN <? 4000) = false /\ it_count_all days_next Date.D_MIN = OutOfFuel /\
+  it_step_by days_next_back 3 true 5 Date.D_MAX <> Val [].
+Proof. exact adapt_examples. Qed.
+Print Assumptions C03_iter_adaptors_inhabited.
+
+(* ================= judge acceptance for the iterator ops =================
+   The executable statement of the property (Judge/C03.v, applied by ./check to every implementation
+   output) accepts the model's output on every in-domain case of these ops: together with the
+   correspondence run (implementation = model) this closes  implementation ~ model |= judge.
+   A date argument is the pair (year, ordinal) of a valid date ([vd y o] = VTup [VInt y; VInt o]); the
+   direction is [dirv fwd] = 0 forward / 1 backward; k and cap range over the 0..5000 the ops accept. *)
+Theorem C03_holds_observe : forall y o k fwd cap,
+  year_in_range y = true -> valid_yo y o = true -> 0 <= k <= 5000 -> 0 <= cap <= 5000 ->
+  let args := [Proofs.C03Holds.vd y o; VInt k; VInt (Proofs.C03Holds.dirv fwd); VInt cap] in
+  Judge.C03.judge B"it.days" args (run B"it.days" args) = JOk /\
+  Judge.C03.judge B"it.weeks" args (run B"it.weeks" args) = JOk /\
+  Judge.C03.judge B"it.drev" args (run B"it.drev" args) = JOk /\
+  Judge.C03.judge B"it.wrev" args (run B"it.wrev" args) = JOk.
+Proof. exact Proofs.C03Holds.holds_observe. Qed.
+Print Assumptions C03_holds_observe.
+(* length hint and len: forward (direction 0); backward the judge rejects the hint: known finding
+   C03-iter-rev-size-hint, C03_hint_backward_refuted *)
+Theorem C03_holds_hint_len_forward : forall y o k,
+  year_in_range y = true -> valid_yo y o = true -> 0 <= k <= 5000 ->
+  let args := [Proofs.C03Holds.vd y o; VInt k; VInt 0] in
+  let args2 := [Proofs.C03Holds.vd y o; VInt k] in
+  Judge.C03.judge B"it.dhint" args (run B"it.dhint" args) = JOk /\
+  Judge.C03.judge B"it.whint" args (run B"it.whint" args) = JOk /\
+  Judge.C03.judge B"it.dlen" args2 (run B"it.dlen" args2) = JOk /\
+  Judge.C03.judge B"it.wlen" args2 (run B"it.wlen" args2) = JOk.
+Proof. exact Proofs.C03Holds.holds_hint_len. Qed.
+Print Assumptions C03_holds_hint_len_forward.
+(* count / last: asked (model, harness and judge alike) within ten years of the end they run to:
+   [near_end_y y fwd] = 262133 <= y forward, y <= -262134 backward; there the loop fuel suffices *)
+Theorem C03_holds_count_last : forall y o fwd,
+  year_in_range y = true -> valid_yo y o = true -> Proofs.C03Holds.near_end_y y fwd = true ->
+  let args := [Proofs.C03Holds.vd y o; VInt (Proofs.C03Holds.dirv fwd)] in
+  Judge.C03.judge B"it.dcount" args (run B"it.dcount" args) = JOk /\
+  Judge.C03.judge B"it.wcount" args (run B"it.wcount" args) = JOk /\
+  Judge.C03.judge B"it.dlast" args (run B"it.dlast" args) = JOk /\
+  Judge.C03.judge B"it.wlast" args (run B"it.wlast" args) = JOk.
+Proof. exact Proofs.C03Holds.holds_end. Qed.
+Print Assumptions C03_holds_count_last.
+(* step_by(s), 1 <= s <= 5000, at most 60 items asked (the bounds of the op) *)
+Theorem C03_holds_step_by : forall y o fwd s cap,
+  year_in_range y = true -> valid_yo y o = true -> 1 <= s <= 5000 -> 0 <= cap <= 60 ->
+  let args := [Proofs.C03Holds.vd y o; VInt (Proofs.C03Holds.dirv fwd); VInt s; VInt cap] in
+  Judge.C03.judge B"it.dstep" args (run B"it.dstep" args) = JOk /\
+  Judge.C03.judge B"it.wstep" args (run B"it.wstep" args) = JOk.
+Proof. exact Proofs.C03Holds.holds_step. Qed.
+Print Assumptions C03_holds_step_by.
+Example C03_holds_inhabited :
+  year_in_range 262142 = true /\ valid_yo 262142 100 = true /\ Proofs.C03Holds.near_end_y 262142 true = true /\
+  year_in_range (-262143) = true /\ valid_yo (-262143) 100 = true /\ Proofs.C03Holds.near_end_y (-262143) false = true /\
+  run B"it.dcount" [Proofs.C03Holds.vd 262142 100; VInt 0] = VInt 265 /\
+  run B"it.wlast" [Proofs.C03Holds.vd (-262143) 100; VInt 1] = VSome (Proofs.C03Holds.vd (-262143) 9).
+Proof. exact Proofs.C03Holds.holds_examples. Qed.
+Print Assumptions C03_holds_inhabited.
+
+(* ---- the arithmetic ops: on EVERY case line (arbitrary argument lists) of 38 of the 40 ar ops - every
+        checked form, operator form, compound assignment, Duration / Days / FixedOffset operand, difference,
+        round trip and order op of NaiveDate, NaiveDateTime and DateTime<FixedOffset>; all but ar.zdays /
+        ar.opzdays, whose judge accepts two outcomes in the headroom class and whose value-level statement is
+        C03_zone_days_exact - whenever the judge of Judge/C03.v has an opinion it accepts the model's output
+        (Proofs/C03HoldsAr.v: bridges between the judge's instants / day numbers / nanosecond counts and the
+        model's decoded values, one lemma per argument shape) ---- *)
+Theorem C03_holds_arith : forall op args, In op Proofs.C03HoldsAr.arith_ops ->
+  Judge.C03.judge op args (run op args) <> JSkip -> Judge.C03.judge op args (run op args) = JOk.
+Proof. exact Proofs.C03HoldsAr.holds_arith. Qed.
+Print Assumptions C03_holds_arith.
+Theorem C03_holds_arith_ops : Proofs.C03HoldsAr.arith_ops =
+  [B"ar.nadd"; B"ar.nsub"; B"ar.opnadd"; B"ar.opnsub"; B"ar.ndiff"; B"ar.opndiff"; B"ar.ndays"; B"ar.opndays";
+   B"ar.addstd"; B"ar.stdasg"; B"ar.nrt"; B"ar.nord"; B"ar.dadd"; B"ar.dsub"; B"ar.opdadd"; B"ar.opdsub";
+   B"ar.dadds"; B"ar.dsubs"; B"ar.opdadds"; B"ar.opdsubs"; B"ar.ddiff"; B"ar.opddiff";
+   B"ar.zadd"; B"ar.zsub"; B"ar.opzadd"; B"ar.opzsub"; B"ar.opzaddasg"; B"ar.opzsubasg";
+   B"ar.zdiff"; B"ar.opzdiff"; B"ar.opzdiffref"; B"ar.zaddstd"; B"ar.zstdasg"; B"ar.opdasg"; B"ar.opnasg";
+   B"ar.noff"; B"ar.opnoff"; B"ar.opzoff"].
+Proof. exact eq_refl. Qed.
+Print Assumptions C03_holds_arith_ops.
+Example C03_holds_arith_inhabited :
+  Judge.C03.judge B"ar.opzoff" [VTup [VInt 262142; VInt 365; VInt 86399; VInt 999999999; VInt 3600]; VInt 1; VInt 1]
+    (run B"ar.opzoff" [VTup [VInt 262142; VInt 365; VInt 86399; VInt 999999999; VInt 3600]; VInt 1; VInt 1]) = JOk /\
+  Judge.C03.judge B"ar.stdasg" [VTup [VInt 2024; VInt 60; VInt 0; VInt 0]; VInt (-1); VInt 86400; VInt 1]
+    (run B"ar.stdasg" [VTup [VInt 2024; VInt 60; VInt 0; VInt 0]; VInt (-1); VInt 86400; VInt 1]) = JOk /\
+  Judge.C03.judge B"ar.opdasg" [VTup [VInt 2024; VInt 60]; VInt 1; VTup [VInt 86399; VInt 999999999]]
+    (run B"ar.opdasg" [VTup [VInt 2024; VInt 60]; VInt 1; VTup [VInt 86399; VInt 999999999]]) = JOk.
+Proof. exact Proofs.C03HoldsAr.arith_examples. Qed.
+Print Assumptions C03_holds_arith_inhabited.
+
+(* ---- nth / nth_back (ops it.dnth, it.wnth): accepted by the judge for every valid start date, both
+        directions, every jump n : u64 the op is defined for - n <= 3000 anywhere, any n within ten years of
+        the end the jump runs to (there fewer than 4000 items remain, so the model's loop of 4000 steps reaches
+        the end of the sequence: Proofs/C03HoldsNth.v nth_past) - and every cap in 0..=5000.  With
+        C03_holds_observe .. C03_holds_step_by this covers all 16 iterator ops. ---- *)
+Theorem C03_holds_nth : forall y o n fwd cap,
+  year_in_range y = true -> valid_yo y o = true -> in_u64 n = true ->
+  n <= 3000 \/ Proofs.C03Holds.near_end_y y fwd = true -> 0 <= cap <= 5000 ->
+  let args := [Proofs.C03Holds.vd y o; VInt n; VInt (Proofs.C03Holds.dirv fwd); VInt cap] in
+  Judge.C03.judge B"it.dnth" args (run B"it.dnth" args) = JOk /\
+  Judge.C03.judge B"it.wnth" args (run B"it.wnth" args) = JOk.
+Proof. exact Proofs.C03HoldsNth.holds_nth. Qed.
+Print Assumptions C03_holds_nth.
+Example C03_holds_nth_inhabited :
+  year_in_range 262142 = true /\ valid_yo 262142 100 = true /\ in_u64 18446744073709551615 = true /\
+  Proofs.C03Holds.near_end_y 262142 true = true /\
+  run B"it.dnth" [Proofs.C03Holds.vd 262142 100; VInt 18446744073709551615; VInt 0; VInt 10]
+    = VTup [VNone; VNone; VSome (VInt 0)] /\
+  run B"it.wnth" [Proofs.C03Holds.vd 2024 60; VInt 2; VInt 1; VInt 0]
+    = VTup [VSome (Proofs.C03Holds.vd 2024 46); VSome (Proofs.C03Holds.vd 2024 39); VNone].
+Proof. exact Proofs.C03HoldsNth.nth_examples. Qed.
+Print Assumptions C03_holds_nth_inhabited.
+
+(* ---- ... and the two remaining arithmetic ops, Days on a zone-aware value (ar.zdays, ar.opzdays): zero days is
+        the value itself, a target instant outside the range is refused, a target whose local date is
+        representable is exact, and in the headroom class the judge accepts both outcomes (C03_zone_days_exact says
+        which one the model takes).  The case C03_zone_days_exact leaves open - subtracting zero days from a value
+        whose local reading lies in the headroom: checked_sub_days has no zero guard - is the identity: ---- *)
+Theorem C03_zone_sub_days_zero : forall u off, nvalid u -> -86400 < off < 86400 ->
+  dz_checked_sub_days (mk_dtz u off) 0 = Val (Some (mk_dtz u off)).
+Proof. exact Proofs.C03HoldsZdays.sub_days_zero. Qed.
+Print Assumptions C03_zone_sub_days_zero.
+(* all 40 ar ops, arbitrary argument lists (supersedes C03_holds_arith, kept under its name) *)
+Theorem C03_holds_arith_all : forall op args,
+  In op (Proofs.C03HoldsAr.arith_ops ++ [B"ar.zdays"; B"ar.opzdays"]) ->
+  Judge.C03.judge op args (run op args) <> JSkip -> Judge.C03.judge op args (run op args) = JOk.
+Proof. exact Proofs.C03HoldsZdays.holds_arith_all. Qed.
+Print Assumptions C03_holds_arith_all.
+Example C03_holds_zdays_inhabited :
+  dz_checked_sub_days (mk_dtz NDT_MAX 7200) 0 = Val (Some (mk_dtz NDT_MAX 7200)) /\
+  Judge.C03.judge B"ar.zdays" [VTup [VInt 262142; VInt 365; VInt 86399; VInt 999999999; VInt 7200]; VInt (-1); VInt 0]
+    (run B"ar.zdays" [VTup [VInt 262142; VInt 365; VInt 86399; VInt 999999999; VInt 7200]; VInt (-1); VInt 0]) = JOk /\
+  Judge.C03.judge B"ar.opzdays" [VTup [VInt 262142; VInt 365; VInt 86399; VInt 999999999; VInt 7200]; VInt 1; VInt 1]
+    (run B"ar.opzdays" [VTup [VInt 262142; VInt 365; VInt 86399; VInt 999999999; VInt 7200]; VInt 1; VInt 1]) = JOk.
+Proof. exact Proofs.C03HoldsZdays.zdays_examples. Qed.
+Print Assumptions C03_holds_zdays_inhabited.
+
+(* ---- order follows the distance, whatever the offsets (op ar.zord): Ord::cmp, partial_cmp, == and
+        core::cmp::max of two zone-aware values with (possibly different) offsets are all functions of the sign
+        c of (instant a - instant b): cmp = c, partial_cmp = Some c, a == b iff c = 0, max(a, b) == a iff c >= 0 ---- *)
+Theorem C03_zone_order : forall u o1 v o2, nvalid u -> nvalid v ->
+  let c := cmpZ (inst u) (inst v) in
+  dz_cmp (mk_dtz u o1) (mk_dtz v o2) = c /\
+  zord_obs (mk_dtz u o1) (mk_dtz v o2) = VTup [VInt c; VSome (VInt c); val_of_bool (c =? 0); val_of_bool (0 <=? c)].
+Proof. exact Proofs.C03Zord.zord_spec. Qed.
+Print Assumptions C03_zone_order.
+Theorem C03_holds_zord : forall args,
+  Judge.C03.judge B"ar.zord" args (run B"ar.zord" args) <> JSkip ->
+  Judge.C03.judge B"ar.zord" args (run B"ar.zord" args) = JOk.
+Proof. exact Proofs.C03Zord.h_zord. Qed.
+Print Assumptions C03_holds_zord.
+Example C03_zone_order_example :
+  run B"ar.zord" [VTup [VInt 2024; VInt 60; VInt 32400; VInt 0; VInt 3600]; VTup [VInt 2024; VInt 60; VInt 32400; VInt 0; VInt 0]]
+    = VTup [VInt 0; VSome (VInt 0); VInt 1; VInt 1] /\
+  run B"ar.zord" [VTup [VInt 2024; VInt 60; VInt 32400; VInt 0; VInt 3600]; VTup [VInt 2024; VInt 60; VInt 34200; VInt 0; VInt 0]]
+    = VTup [VInt (-1); VSome (VInt (-1)); VInt 0; VInt 0] /\
+  Judge.C03.judge B"ar.zord" [VTup [VInt 2024; VInt 60; VInt 32400; VInt 0; VInt 3600]; VTup [VInt 2024; VInt 60; VInt 34200; VInt 0; VInt 0]]
+    (VTup [VInt (-1); VSome (VInt (-1)); VInt 0; VInt 0]) = JOk.
+Proof. exact Proofs.C03Zord.zord_examples. Qed.
+Print Assumptions C03_zone_order_example.
